@@ -18,7 +18,7 @@
 import MdIt.Lemmas.InlineRules
 import MdIt.Props.C12
 
-namespace MdIt.Inline
+namespace MdIt.Inline.C12
 open MdIt.InlineOps (Srcmap getSourcePosFor getMap byteLen slice)
 open MdIt.C05 (WFMap byteLen_append slice_ok_iff)
 open MdIt.Entity (escapeAllPunct isAsciiPunct nonStop notPunct splitRun)
@@ -720,4 +720,4 @@ theorem parseInline_aRb {cfg : Cfg} (hc : ChainOK cfg.chain) (hmax : 0 < cfg.max
   simp only [c3, c2, c1]
   rfl
 
-end MdIt.Inline
+end MdIt.Inline.C12
